@@ -1,5 +1,5 @@
 /-
-Regression witnesses for the repaired findings D4 D5 D6 D7 D8 D9 D17 D40: on the inputs on
+Regression witnesses for the repaired findings D4 D5 D6 D7 D8 D9 D17 D40 D74: on the inputs on
 which the compiler used to overflow the stack, truncate a number or accept a self-defined
 constant/service, the model of the repaired code answers `err` — for every fuel that lets it
 answer at all (a verdict other than fuel exhaustion is fuel-independent, `compileWith_mono`).
@@ -55,6 +55,7 @@ theorem err_D6 : compile 30 [] progD6 = .err := Res.eq_err_of_isErr (by decide +
 theorem err_D6list : compile 30 [] progD6list = .err := Res.eq_err_of_isErr (by decide +kernel)
 theorem err_D6default : compile 30 [] progD6default = .err := Res.eq_err_of_isErr (by decide +kernel)
 theorem err_D40 : compile 30 [] progD40 = .err := Res.eq_err_of_isErr (by decide +kernel)
+theorem err_D74 : compile 30 [] progD74 = .err := Res.eq_err_of_isErr (by decide +kernel)
 theorem err_D5 : compile 30 [] progD5 = .err := Res.eq_err_of_isErr (by decide +kernel)
 theorem err_D5self : compile 30 [] progD5self = .err := Res.eq_err_of_isErr (by decide +kernel)
 theorem err_D7 : compile 30 [] progD7 = .err := Res.eq_err_of_isErr (by decide +kernel)
